@@ -9,6 +9,10 @@ import (
 	"strings"
 	"sync"
 	"time"
+
+	"google.golang.org/protobuf/reflect/protodesc"
+	"google.golang.org/protobuf/reflect/protoregistry"
+	"google.golang.org/protobuf/types/descriptorpb"
 )
 
 // c12.go — C12 "Misused annotations stop generation; valid definitions are never refused".
@@ -104,7 +108,7 @@ func DumpResults(run *Run) {
 }
 
 // c12Gen runs the five sebuf plugins (not protoc-gen-go, whose output C12 does not look at) on every request.
-func c12Gen(binDir string, reqs []*Request) []*GenOutput {
+func c12Gen(binDir string, reqs []*Request, orders [][]C12NestedOrder) []*GenOutput {
 	out := make([]*GenOutput, len(reqs))
 	var wg sync.WaitGroup
 	sem := make(chan struct{}, 12)
@@ -122,6 +126,12 @@ func c12Gen(binDir string, reqs []*Request) []*GenOutput {
 				return
 			}
 			g.Built = b
+			if i < len(orders) && len(orders[i]) > 0 {
+				if err := c12ApplyNestedOrder(b, orders[i]); err != nil {
+					g.BuildErr = err.Error()
+					return
+				}
+			}
 			tg := ToGenerate(r)
 			for _, p := range Plugins {
 				param := ""
@@ -136,11 +146,76 @@ func c12Gen(binDir string, reqs []*Request) []*GenOutput {
 	return out
 }
 
+// c12ApplyNestedOrder reorders nested_type of the named messages in the built FileDescriptorProtos (the
+// plugins see b.All; the resolved registry is not used by C12) and checks that the result is still a
+// valid descriptor set.
+func c12ApplyNestedOrder(b *Built, orders []C12NestedOrder) error {
+	var find func(prefix string, ms []*descriptorpb.DescriptorProto, fq string) *descriptorpb.DescriptorProto
+	find = func(prefix string, ms []*descriptorpb.DescriptorProto, fq string) *descriptorpb.DescriptorProto {
+		for _, m := range ms {
+			name := qual(prefix, m.GetName())
+			if name == fq {
+				return m
+			}
+			if x := find(name, m.NestedType, fq); x != nil {
+				return x
+			}
+		}
+		return nil
+	}
+	for _, o := range orders {
+		var md *descriptorpb.DescriptorProto
+		for _, f := range b.All {
+			if md = find(f.GetPackage(), f.MessageType, o.Msg); md != nil {
+				break
+			}
+		}
+		if md == nil {
+			return fmt.Errorf("nested order: no message %s", o.Msg)
+		}
+		var sorted []*descriptorpb.DescriptorProto
+		used := map[*descriptorpb.DescriptorProto]bool{}
+		for _, n := range o.Order {
+			hit := false
+			for _, nt := range md.NestedType {
+				if nt.GetName() == n && !used[nt] {
+					sorted = append(sorted, nt)
+					used[nt] = true
+					hit = true
+					break
+				}
+			}
+			if !hit {
+				return fmt.Errorf("nested order: %s has no nested type %s", o.Msg, n)
+			}
+		}
+		for _, nt := range md.NestedType {
+			if !used[nt] {
+				sorted = append(sorted, nt)
+			}
+		}
+		md.NestedType = sorted
+	}
+	// the reordered set must still resolve
+	reg := &protoregistry.Files{}
+	for _, f := range b.All {
+		fd, err := protodesc.NewFile(f, reg)
+		if err != nil {
+			return fmt.Errorf("nested order: %v", err)
+		}
+		if err := reg.RegisterFile(fd); err != nil {
+			return fmt.Errorf("nested order: %v", err)
+		}
+	}
+	return nil
+}
+
 func CheckC12(run *Run) {
 	run.Proof = CheckProofs("C12")
 	run.Prepare()
 	rng := rand.New(rand.NewSource(run.Seed + 1212))
 	cases := C12Catalogue(rng, run.Tier)
+	cases = append(cases, C12MapOrderCatalogue(run.Tier)...)
 	// the valid corpora of the other checks: every plugin must accept them
 	var corpus []*Request
 	corpus = append(corpus, FeatureCatalogue()...)
@@ -155,10 +230,12 @@ func CheckC12(run *Run) {
 		cases = append(cases, &C12Case{Req: r, Family: "valid-corpus", Placement: "-", Surround: "-", Note: r.ID})
 	}
 	reqs := make([]*Request, len(cases))
+	orders := make([][]C12NestedOrder, len(cases))
 	for i, c := range cases {
 		reqs[i] = c.Req
+		orders[i] = c.NestedOrder
 	}
-	gens := c12Gen(run.BinDir, reqs)
+	gens := c12Gen(run.BinDir, reqs, orders)
 	var ccs []CoqCase
 	var crs []*CaseResult
 	for i, c := range cases {
@@ -227,7 +304,7 @@ func CheckC12(run *Run) {
 			feats = append(feats, "rule:none")
 		}
 		cr := &CaseResult{ID: c.Req.ID, Family: c.Family,
-			Input: map[string]any{"schema": c.Req.ID, "rule": c.Rule, "placement": c.Placement, "surround": c.Surround, "note": c.Note, "offenders": c.Offenders, "request": c.Req},
+			Input: map[string]any{"schema": c.Req.ID, "rule": c.Rule, "placement": c.Placement, "surround": c.Surround, "note": c.Note, "offenders": c.Offenders, "request": c.Req, "nested_type_order": c.NestedOrder},
 			Obs:   obs, OracleHolds: holds, OracleNote: strings.Join(notes, " | "), NonTrivial: true, Features: feats}
 		crs = append(crs, cr)
 		ccs = append(ccs, CoqCase{Term: "(" + CoqSchema(ModelOrder(c.Req, g.Built)) + ",\n   [" + strings.Join(offs, "; ") + "])", Obs: obs})
@@ -250,5 +327,6 @@ func CheckC12(run *Run) {
 	run.Extra["plugin_runs"] = len(cases) * len(Plugins)
 	run.Extra["rules"] = len(c12Rules())
 	run.Extra["placements"] = c12Placements
+	run.Extra["nested_map_order_shapes"] = c12MapShapes
 	run.Finish()
 }
